@@ -3,6 +3,18 @@
 import json, subprocess
 
 CHECKS = {
+ "C13": dict(level="exploration", design="§3 C13", technique="bounded-exhaustive enumeration of documents around every loader chunk boundary x formats x prior database contents x pool sizes on the real loaders, reference reader as oracle, cross-format equality",
+   text="Documents of sizes {0,1,2, 998..1003, 1998..2002, 3001} (thorough more, incl. the 8192 RDF/XML batch boundary) generated from one abstract triple list in N-Triples, N-Quads (+graph column), Turtle, N3 and RDF/XML, with a distinguished line (@prefix used only later, term first seen in the previous chunk, duplicate, lang/datatype/escaped literal, quoted triple, comment, blank line, blank node, '#' in an IRI) at every offset -2..+2 of every chunk boundary, loaded into databases with 5 kinds of prior content under rayon pools of 1/2/4/16 threads; the lexical quad set must equal prior + document, the dictionary must stay a bijection with prior ids unchanged, and all formats must load identically.",
+   note="Interleavings inside a rayon pool are not enumerable (pool sizes are; chunk tasks are pure functions merged sequentially - verified by reading); line-oriented subset only; reference reader harness/src/reference/loader.rs."),
+ "C14": dict(level="exploration", design="§3 C14", technique="exhaustive enumeration of all literal strings up to a length bound over a 16-character delimiter alphabet x 10 dataset contexts x 3 export/import round trips on the real writers and readers",
+   text="Every string of length <=3 (thorough <=4) over {a, quote, backslash, LF, CR, TAB, e-acute, emoji, space, <, >, ., #, :, @, ^} that cannot be mistaken for an IRI / blank node / quoted triple (4 333 / 69 321 literals) is placed as object in 10 contexts (IRI, blank and (nested) quoted-triple subjects, default and named graphs, two predicates, literal inside a quoted triple, database with prefixes) and round-tripped through generate_nquads/parse_nquads_and_add, generate_ntriples/parse_ntriples_and_add and generate_turtle/parse_turtle into an empty database; the lexical quad sets must be equal.",
+   note="Source databases are built without any parser; the exclusion line (scheme: shape, <<) is the writers' own term-kind guess, re-implemented in the harness."),
+ "C18": dict(level="exploration", design="§3 C18", technique="bounded-exhaustive enumeration of (program, fact set, goal shape, variable naming) on the real backward chainer, naive least-fixpoint with derivation stages as oracle",
+   text="66 programs (24-rule core: constants, repeated variables, variable predicates, two conclusions, linear / left / doubly / mutually recursive; thorough all 552 ordered pairs) x fact sets of <=2 (thorough <=4) triples + curated chains x 37 goal shapes x namings drawn from {x, X, Y, v0, v1, v2}: every answer applied to the goal must be in the least model, every model fact of derivation stage <=5 matching the goal must be returned, and answers must not depend on what the goal variables are called.",
+   note="Goal shapes whose predicted SLD cost exceeds a step cap (left/doubly recursive blow-ups) are skipped and counted (evidence exhaustive:false for those); completeness demanded only 5 levels below MAX_DEPTH."),
+ "C19": dict(level="fault_enumeration", design="§3 C19", technique="exhaustive enumeration of fact sets x constraint sets x goals x EVERY iteration order of compute_repairs' candidate loop (order seam H2), brute-force maximal-consistent-subset oracle",
+   text="Every fact set of <=4 (thorough <=5) triples x 15 constraint sets x 9 goals, each under every global ranking of the facts (all n! hash orders production can exhibit) and every deviation-bounded order strategy through hook H2, plus native no-oracle runs: query_with_repairs must return exactly the answers true in every subset-maximal consistent subset (brute force over 2^n subsets), identically for every order, and infer_new_facts_semi_naive_with_repairs must end consistent for 7 rule sets.",
+   note="Order seam H2 behind cfg(kolibrie_verif) decides HashSet iteration order; filter-free denial constraints."),
  "C02": dict(level="exploration", design="§3 C02", technique="exhaustive enumeration of configurations (BGP permutations x statistics objects x join-algorithm assignments x scan flips x star expansion x pool sizes) executed on the real optimizer/engine, differential + SPARQL-algebra reference oracle",
    text="For 20 join-rich query shapes every permutation of every triples block (<=24) is executed on 16 (thorough ~120) datasets: end to end, under five statistics objects (fresh, empty, all-zero, all-huge, inverted) through Streamertail::find_best_plan, with EVERY assignment of {bind, hash, nested-loop} to the join nodes of each distinct chosen plan (3^j), every scan flip, StarJoin expanded to left-deep joins, through the real stale cached_stats path (query, mutate, query), and with thread pools of 1..16 threads on a 210-triple dataset; every variant must return the reference solution multiset.",
    note="Interleavings inside a rayon pool are not enumerable (pool sizes are; free-running runs labelled as such); plan variants are built by rewriting the public PhysicalOperator tree; reference evaluator trusted."),
